@@ -139,6 +139,41 @@ class _ExtractTemps(ast.NodeTransformer):
         return node
 
 
+class _AddLogging(ast.NodeTransformer):
+    """`import logging; _log = logging.getLogger(__name__)` at module level and a `_log.debug(...)` call at the start of every function
+    body and of every loop body (a maintainer adding trace output)"""
+    def visit_Module(self, node):
+        self.generic_visit(node)
+        i = 0
+        while i < len(node.body) and (isinstance(node.body[i], ast.Expr) and isinstance(node.body[i].value, ast.Constant)
+                                      or isinstance(node.body[i], ast.ImportFrom) and node.body[i].module == '__future__'):
+            i += 1
+        extra = ast.parse('import logging\n_log = logging.getLogger(__name__)\n').body
+        node.body[i:i] = extra
+        return node
+
+    @staticmethod
+    def _call(msg):
+        return ast.parse(f'_log.debug({msg!r})').body[0]
+
+    def visit_FunctionDef(self, node):
+        self.generic_visit(node)
+        body = node.body
+        k = 1 if body and isinstance(body[0], ast.Expr) and isinstance(body[0].value, ast.Constant) and isinstance(body[0].value.value, str) else 0
+        node.body = body[:k] + [self._call('enter ' + node.name)] + body[k:]
+        return node
+
+    def visit_For(self, node):
+        self.generic_visit(node)
+        node.body = [self._call('loop')] + node.body
+        return node
+
+    def visit_While(self, node):
+        self.generic_visit(node)
+        node.body = [self._call('loop')] + node.body
+        return node
+
+
 TWINS = {
     'unparse-roundtrip': [],
     'rename-locals': [_RenameLocals],
@@ -148,6 +183,7 @@ TWINS = {
     'pad-statements': [_PadStatements],
     'while-true-break': [_WhileTrue],
     'return-via-temp': [_ExtractTemps],
+    'add-logging': [_AddLogging],
 }
 
 
